@@ -483,7 +483,10 @@ def full_form(obj):
         trace = record.annotations.pop(TRACE_KEY)
     form = {"graph": canon(obj)}
     if record is not None:
-        form["api"] = api_view(record)
+        try:
+            form["api"] = api_view(record)
+        except Exception as err:  # an object that broke on the way is an observation  # pylint: disable=broad-except
+            form["api"] = {"accessor_failed": f"{type(err).__name__}: {err}"[:200]}
     return form, trace
 
 
